@@ -240,6 +240,12 @@ def confirm_region(sets, band_edges, r2, pred, q, search=True):
     cands = candidate_points(q)
     if search:
         cands += grid_candidates(sets, 1600)
+        if q is not None:
+            # dense local search around the checker's witness cell (a wrong region may clear the band by a sliver)
+            for step, half in ((F(1, 8), 24), (F(1, 32), 32)):
+                for i in range(-half, half + 1):
+                    for j in range(-half, half + 1):
+                        cands.append((q[0] + i * step + F(1, 1009), q[1] + j * step + F(1, 997)))
     for c in cands:
         d2 = geom.min_dist2(band_edges, c)
         if d2 is not None and d2 <= r2:
